@@ -130,6 +130,7 @@ def w_histories(ctx: core.Ctx, arg):
                     continue  # not introduced by this transaction (already reported, or present in the input file)
                 ctx.witness(key + '.' + op['op'] + ('.' + op['sub'] if op.get('sub') else ''), what, {**det, 'op': op, **label, 'step': step})
             shapes.append(mdibops.op_shape(ap))
+            ctx.case(('tr', mdib_file) + mdibops.op_shape(ap), nontrivial=bool(changed))
             if hist.problems:
                 for key, what, det in hist.problems:
                     ctx.witness(key + '.' + op['op'] + ('.' + op['sub'] if op.get('sub') else ''), what, {**det, 'op': op, **label, 'step': step})
